@@ -237,8 +237,8 @@ Proof.
     apply andb_true_iff in C as [C C3]. apply andb_true_iff in C as [C1 C2]. apply Z.leb_le in C1, C3. apply Z.ltb_lt in C2.
     replace (l0 <=? 2) with false by (symmetry; apply Z.leb_gt; lia). replace (l0 =? 255) with false by (symmetry; apply Z.eqb_neq; lia).
     cbn [Z.gtb Z.compare Pos.compare Pos.compare_cont orb]. rewrite <- len_dlen.
-    replace (pos + 1 + 1 >=? len d) with false by (symmetry; apply Z.geb_leb, Z.leb_gt; lia).
-    replace (l0 - 2 + (pos + 1 + 1) >? len d) with false by (symmetry; apply Z.gtb_ltb, Z.ltb_ge; lia).
+    replace (pos + 1 + 1 >=? len d) with false by (symmetry; rewrite Z.geb_leb; apply Z.leb_gt; lia).
+    replace (l0 - 2 + (pos + 1 + 1) >? len d) with false by (symmetry; rewrite Z.gtb_ltb; apply Z.ltb_ge; lia).
     cbn [Z.eqb Pos.eqb]. rewrite cstr_ref_text, <- slice_sub. f_equal; [|lia]. f_equal. f_equal.
     change 2%nat with (Z.to_nat 2). rewrite skipn_slice by lia. f_equal. lia.
 Qed.
